@@ -5,6 +5,7 @@
 import YashModel.Syntax.Lemmas
 import YashModel.Syntax.WordLemmas
 import YashModel.Syntax.CommandLemmas
+import YashModel.Syntax.FragmentLemmas
 namespace YashModel.Syntax
 
 /-- ★ Every escape unit the parser can produce is printed as text that the escape lexer reads back as the
@@ -20,20 +21,53 @@ example : lexEscape (printEscape (.control 0x1C) ++ ['\\', 'c', '\\', '\\']) =
 example : lexEscape (printEscape (.unicode '😀') ++ ['A']) = some (.unicode '😀', ['A']) := by decide
 
 
-/-
-  ★ (design) word_self_delimiting : ∀ w ∈ Fragment, ∀ d rest, lexWord (printWord w ++ d :: rest) = (w, d :: rest)
-  with Fragment = all word units.  Proved below for the fragment `WordUnit.Flat`: unquoted literal
-  characters that are neither delimiters nor one of `\ ' " $ \``, backslash-escaped characters (any
-  but newline, which the lexer removes as a line continuation), single-quoted strings, and
-  dollar-single-quoted strings made of every producible escape unit.  Missing: parameter expansions
-  (`$x`, `${x…}` with modifiers), double quotes, backquotes (the model lexer covers them and is run
-  against the implementation's printed text on every correspondence run, but the mutual induction
-  through `${…}` was not finished), command substitutions and arithmetic (not in the model lexer).
--/
+/-- ★ Every word of the modelled fragment is self-delimiting.  `WordUnits.Ok .word d w (e :: rest)` says that
+    `w` is a tree the word lexer can produce with `(e :: rest)` following it: unquoted literal characters
+    (not a delimiter, not one of `\\ $ \`` and not a quote), backslash escapes (any character but newline),
+    `$x`/`$1`/`$?` (a name must not be followed by a further name character), `${…}` with every modifier
+    (none, length, the eight switches, the four trims) whose words are again in the fragment, backquote
+    substitutions, single quotes, double quotes with their text units (the same parameter forms,
+    backquotes, the four escapable characters), dollar-single quotes with every producible escape.
+    For every such word, every delimiter predicate `d` the lexer uses, every delimiter character `e` and
+    every text `rest`: lexing the printed word followed by `e :: rest` returns exactly the word and stops
+    in front of `e`.  Outside the fragment: command substitutions and arithmetic expansions (not in the
+    model lexer), tilde units (made by `parse_tilde_front` after lexing), and the literal units `$` and
+    `\\` that the lexer yields for a dollar or backslash that starts nothing. -/
+theorem word_self_delimiting (d : Delim) (w : Word) (e : Char) (rest : List Char)
+    (h : WordUnits.Ok .word d w (e :: rest)) (he : d.Ends e) :
+    lexWord d (printWord w ++ e :: rest) = some (w, e :: rest) := by
+  unfold lexWord
+  apply (lex_all _).2.2.2.2 .word d w e rest h he
+  simp only [List.length_append, List.length_cons]
+  omega
 
-/-- ★ (partial) A word of the flat fragment is self-delimiting: whatever delimiter character `c` and text
-    `rest` follow its printed form, the word lexer (token delimiters, as used by `Lexer::token`) returns
-    exactly the word and stops in front of `c`. Printing single spaces between words is therefore enough. -/
+/-- `${x:-"a$y"}$z` followed by a blank -/
+example (rest : List Char) : WordUnits.Ok .word .token
+    [.unquoted (.bracedParam ['x'] (.switch true .default
+        [.doubleQuote [.literal 'a', .rawParam ['y']]])),
+     .unquoted (.rawParam ['z'])] (' ' :: rest) := by
+  simp only [WordUnits.Ok, WordUnit.Ok, TextUnit.Ok, Modifier.Ok, TextUnits.Ok, UnquotedOk, and_true]
+  and_intros
+  all_goals first
+    | decide
+    | trivial
+    | exact ⟨'x', [], rfl, Or.inl ⟨by decide, by decide, by decide⟩⟩
+    | exact ⟨'y', [], rfl, Or.inr ⟨by decide, by decide, by decide, by decide,
+        headNotName_of _ _ (by decide) (by decide)⟩⟩
+    | exact ⟨'z', [], rfl, Or.inr ⟨by decide, by decide, by decide, by decide,
+        headNotName_of _ _ (by decide) (by decide)⟩⟩
+    | (intro _; simp [NoTildeFront])
+    | (intro h; simp at h)
+
+
+/-- the same for the content of double quotes (`Lexer::text` with `"` as the delimiter) -/
+theorem text_self_delimiting (t : List TextUnit) (rest : List Char)
+    (h : TextUnits.Ok .text .dquote t ('"' :: rest)) :
+    lexTextUnits ((printText t).length + 4) .dquote (printText t ++ '"' :: rest) =
+      some (t, '"' :: rest) :=
+  (lex_all _).2.2.1 .dquote t '"' rest h dquote_textEnds (Nat.le_refl _)
+
+/-- the flat fragment of round 1 (kept as a directly checkable special case) -/
 theorem word_self_delimiting_partial (w : Word) (h : ∀ u ∈ w, u.Flat .token) (c : Char)
     (hc : Delim.token.Ends c) (rest : List Char) :
     lexWord .token (printWord w ++ c :: rest) = some (w, c :: rest) := by
